@@ -50,7 +50,9 @@ def run_one(job):
                 ctx, mod = fw.run_rules(prop, "quick", repo=scratch, cache=cache, target=target)
                 if ctx is None:
                     continue
-                out[prop] = [(o["rule"], o["key"], o["detail"][:200]) for o in ctx.obs if not o["ok"]]
+                # (recorded known findings are not alarms: exact (property, rule, key) only, as in framework.finish)
+                kf = {(k_["property"], k_["rule"], k_["key"]) for k_ in fw.load_known().get("findings", [])}
+                out[prop] = [(o["rule"], o["key"], o["detail"][:200]) for o in ctx.obs if not o["ok"] and (prop, o["rule"], o["key"]) not in kf]
         except Exception as e:  # compile failure etc.
             return name, {"error": "%s: %s" % (type(e).__name__, str(e)[:300])}
         return name, {"violations": out, "wall_s": round(time.time() - t0, 1)}
